@@ -1,4 +1,5 @@
 import StepModel.AttrNull
+import StepModel.ModeGlue
 /-! Line-protocol driver for the C15 model.
     request : `read <strict 0|1> | <inst> | <inst> …`
               inst  := `S <part>` | `X <part> ; <part> ; …`      (parts of a complex instance in the writer's order)
@@ -7,6 +8,8 @@ import StepModel.AttrNull
                                                              tok := M1 (`$`) | M0 (nothing) | ST (`*`) | L<SEV>
     reply   : `F sev=<file severity> exit=<p21read exit> | <instance severity>/<state>/<part>.<pos>=<value words>,… | …`
               (values are listed for the positions whose token was M0/M1)
+    request : `args <argv[1]> <argv[2]> …`   (p21read's command line, program name left out; `%` stands for an empty list)
+    reply   : `O strict=<0|1> usage=<0|1> version=<0|1> files=<number of arguments left>`
     anything else → `bad-op` -/
 open StepModel StepModel.AttrNull StepModel.P21 StepModel.Generated
 
@@ -76,6 +79,11 @@ def handle (line : String) : String :=
   let ws := (line.trimAscii.toString.splitOn " ").filter (· ≠ "")
   match ws with
   | [] => ""
+  | "args" :: rest =>
+    let argv := if rest = ["%"] then [] else rest
+    let (o, files) := StepModel.ModeGlue.parseArgs StepModel.ModeGlue.initial argv
+    let b := fun (x : Bool) => if x then "1" else "0"
+    s!"O strict={b o.strict} usage={b o.usage} version={b o.version} files={files.length}"
   | "read" :: st :: "|" :: rest =>
     match (if st = "1" then some true else if st = "0" then some false else none),
           (splitOnWord "|" rest).mapM parseInst with
